@@ -38,7 +38,7 @@ PROTO_OPTTIONS: OptionDescriptors = (
     OptionDescriptor(
         "c.struct_packing_alignment",
         0,
-        lambda v: 0 <= v <= 8,
+        lambda v: v in (0, 1, 2, 4, 8),
         "C language struct packing alignment, defaults to 0",
     ),
     OptionDescriptor(
